@@ -5,6 +5,8 @@
 (* Used with BFS (all behaviours of small constants) and with -simulate.      *)
 EXTENDS ImportClosure, Json, SequencesExt
 
+CONSTANT AliasSet   \* names an import statement may give (`import f as X'); {""} = never
+
 FileSeq == SetToSeq(Files)   \* the files in some fixed order (setup order)
 
 VARIABLES hist,     \* schedule so far: sequence of [a, f, d]
@@ -25,12 +27,13 @@ Setup ==
   /\ setup <= Len(FileSeq)
   /\ IF setup = 0
        THEN /\ \E d \in Depths : maxd' = d
-            /\ UNCHANGED <<imports, fail>>
+            /\ UNCHANGED <<imports, aliases, fail>>
        ELSE LET f == FileSeq[setup] IN
             /\ \E il \in ImportLists, k \in {"none"} \cup FaultKinds :
                  /\ FaultOK(f, k)
                  /\ imports' = [imports EXCEPT ![f] = il]
                  /\ fail' = [fail EXCEPT ![f] = k]
+                 /\ \E al \in [DOMAIN il -> AliasSet] : aliases' = [aliases EXCEPT ![f] = al]
             /\ UNCHANGED maxd
   /\ setup' = setup + 1
   /\ UNCHANGED <<retrieved, gs, reads, outcome, hist>>
@@ -45,7 +48,7 @@ GenNext ==
      /\ \/ \E g \in DOMAIN gs : Enter(g) /\ Step("enter", g)
         \/ \E g \in DOMAIN gs : (ReadOK(g) \/ ReadFail(g)) /\ Step("read", g)
         \/ /\ Finish
-           /\ PrintT(<<"SCN", ToJson([imports |-> imports, fail |-> fail, maxd |-> maxd,
+           /\ PrintT(<<"SCN", ToJson([imports |-> imports, aliases |-> aliases, fail |-> fail, maxd |-> maxd,
                                       sched |-> hist, expect |-> outcome'.kind])>>)
            /\ UNCHANGED hist
      /\ UNCHANGED setup
